@@ -379,6 +379,7 @@ static void libstate_restore() {
 // ================================================================= run context
 struct DataObj {
   char *base = nullptr;       // over-allocated block
+  char *alloc = nullptr;      // what free() gets (base lies inside it when the object is placed on a page boundary)
   struct crypt_data *cd = nullptr;
   int align = 0;
   std::string state = "fresh";          // fresh | success | failure | scribbled
@@ -569,7 +570,8 @@ static void check_fail_closed(Run &r, int t, int i, const HashCall &c, long size
       violation(nullptr, "failure-returns-pointer", t, i, vfmt("%s must return NULL on failure (failure tokens disabled) but returned \"%s\"", k, c.res.c_str()));
 #endif
   }
-  if (!errno_documented(c.err))
+  // C05 names its three codes; C15 says "a documented error code", and crypt(3) also documents ENOSYS / EOPNOTSUPP
+  if (!errno_documented(c.err) && !(r.o_c15 && !r.o_c05 && (c.err == ENOSYS || c.err == EOPNOTSUPP)))
     violation(nullptr, "failure-errno", t, i, vfmt("%s failed with errno=%d, not one of EINVAL/ERANGE/ENOMEM", k, c.err));
   // 3: the token left in the output field
   if (c.have_out) {
@@ -626,11 +628,23 @@ static OpFaultView fault_view(int t) {
   return v;
 }
 
+// A block that the library's own static data still points into is not leaked: the library keeps it (a cache, a pool)
+// and can still reach, reuse and release it.  The statements forbid leaks, not retention; counted, never a verdict.
+NOASAN static bool retained_by_library_static(uintptr_t p, size_t n) {
+  const char *sec[2][2] = {{__start_libdata, __stop_libdata}, {__start_libbss, __stop_libbss}};
+  for (auto &sc : sec) {
+    if (!sc[0]) continue;
+    uintptr_t a = ((uintptr_t)sc[0] + 7) & ~(uintptr_t)7, e = (uintptr_t)sc[1];
+    for (; a + 8 <= e; a += 8) { uintptr_t w = *(const volatile uintptr_t *)a; if (w >= p && w < p + n) return true; }
+  }
+  return false;
+}
 static void leak_check(Run &r, int t, int i, const char *when) {
   for (auto &kv : MemLayer::get().live) {
     const Block &b = kv.second;
     if (b.from_harness || b.release_refused || b.task != t) continue;   // other tasks' blocks may be in flight
     if (is_caller_owned(r, (const void *)kv.first)) continue;
+    if (retained_by_library_static(kv.first, b.size)) { stat("incidental_block_retained_by_library_static"); continue; }
     violation(nullptr, "leak", t, i, vfmt("%s of %zu bytes allocated by the library in t%d op%d is still live %s and belongs to nobody",
                                           b.is_map ? "mapping" : "heap block", b.size, b.task, b.op, when));
     return;
@@ -945,8 +959,10 @@ static void exec_hash(Run &r, int t, int i, const J &op) {
           violation(nullptr, "ra-protocol", t, i, vfmt("crypt_ra left *size=%d for a block of %zu bytes (need %zu <= *size <= block)", slot->size, b->size, CD));
         else {
           const struct crypt_data *nd = (const struct crypt_data *)slot->data;
+          bool had_to_grow = !slot_before || slot_size_before < (int)CD;
           // zero-initialised after growth: everything but the output field (which now holds the result or the token)
-          if (!all_zero(nd->setting, CD - offsetof(struct crypt_data, setting)))
+          if (!had_to_grow) stat("incidental_ra_changed_a_block_that_was_large_enough");   // within the statement: no zero clause applies
+          else if (!all_zero(nd->setting, CD - offsetof(struct crypt_data, setting)))
             violation(nullptr, "ra-not-zeroed", t, i, "crypt_ra grew the block but the new block is not zero-initialised outside its output field");
           else {
             // ... and inside the output field everything behind the string the call left there
@@ -963,10 +979,11 @@ static void exec_hash(Run &r, int t, int i, const J &op) {
         violation(nullptr, "ra-protocol", t, i, "crypt_ra returned a pointer outside [*data, *data + *size)");
     }
     bool needed_growth = !slot_before || slot_size_before < (int)CD;
-    if (needed_growth && !changed && fv.effective == 0)
-      violation(nullptr, "ra-protocol", t, i, vfmt("crypt_ra was given (%s, %d) and neither allocated nor failed", slot_before ? "block" : "NULL", slot_size_before));
-    if (!needed_growth && changed)
-      violation(nullptr, "ra-protocol", t, i, "crypt_ra replaced a block that was large enough");
+    // (a failing call may leave *data unchanged - "either unchanged or ..." - whether or not it got as far as allocating;
+    // a call that returns a result must have a block to return it in)
+    if (needed_growth && !changed && fv.effective == 0 && !c.failed)
+      violation(nullptr, "ra-protocol", t, i, vfmt("crypt_ra was given (%s, %d) and returned a result without allocating", slot_before ? "block" : "NULL", slot_size_before));
+    if (needed_growth && !changed && fv.effective == 0 && c.failed) stat("incidental_ra_failed_without_allocating");
     if (needed_growth && changed) stat("probe_ra_growth");
   }
   // ---------------- leaks (C08-3, C14, C15-c)
@@ -1426,7 +1443,12 @@ static RunOut run_plan(const J &plan, uint64_t fill_override, bool use_override)
     const J &tj = plan.at("tasks").a[(size_t)t];
     for (auto &oj : tj.at("objs").a) {
       DataObj o; o.align = (int)oj.i("align") & 15;
-      o.base = (char *)aligned_alloc(64, OBJ_BLOCK);
+      if (oj.i("page")) {   // the object itself starts (and, being 8 pages long, ends) exactly on a page boundary
+        const size_t PG = 4096; o.align = 0;
+        o.alloc = (char *)aligned_alloc(PG, ((OBJ_BLOCK + 2 * PG) / PG + 1) * PG);
+        o.base = o.alloc + (PG - OBJ_PAD % PG) % PG;
+        stat("probe_object_on_page_boundary");
+      } else o.alloc = o.base = (char *)aligned_alloc(64, OBJ_BLOCK);
       o.cd = (struct crypt_data *)(o.base + OBJ_PAD + o.align);
       std::string init = oj.str("init", "zero");
       if (init == "zero") memset(o.base, 0, OBJ_BLOCK); else garbage_fill(o.base, OBJ_BLOCK, (use_override ? fill_override : 0) + (uint64_t)oj.i("gseed", 1));
@@ -1465,13 +1487,13 @@ static RunOut run_plan(const J &plan, uint64_t fill_override, bool use_override)
   }
   for (auto &kv : ml.live) {
     const Block &b = kv.second;
-    if (!b.release_refused) { violation(nullptr, "leak", b.task, b.op, vfmt("%s of %zu bytes from t%d op%d never released", b.is_map ? "mapping" : "heap block", b.size, b.task, b.op)); break; }
+    if (!b.release_refused && !retained_by_library_static(kv.first, b.size)) { violation(nullptr, "leak", b.task, b.op, vfmt("%s of %zu bytes from t%d op%d never released", b.is_map ? "mapping" : "heap block", b.size, b.task, b.op)); break; }
   }
   { std::vector<std::pair<void *, Block>> rest; for (auto &kv : ml.live) rest.emplace_back((void *)kv.first, kv.second);
     for (auto &e : rest) ml.h_free(e.first); }
   for (auto &sh : r.shared) thr::region_del(sh.c_str());
   J thrinfo = thr::end_run();
-  for (int t = 0; t < r.ntasks; t++) { for (auto &o : r.tc[t].objs) { thr::region_del(o.base); free(o.base); } if (!r.tc[t].slots.empty()) thr::region_del(r.tc[t].slots.data()); }
+  for (int t = 0; t < r.ntasks; t++) { for (auto &o : r.tc[t].objs) { thr::region_del(o.base); free(o.alloc); } if (!r.tc[t].slots.empty()) thr::region_del(r.tc[t].slots.data()); }
   g_release_hook = nullptr;
 
   // nontrivial-case rules (stated in evidence 'rule')
